@@ -790,10 +790,11 @@ def forMembers (n : Nat) (out : Out) (f : Nat → Out → Out) : Out :=
   (List.range n).foldl (fun o j => f j o) out
 
 /-- g_struct_info_get_copy_function / g_struct_info_get_free_function:
-    `g_return_val_if_fail (GI_IS_STRUCT_INFO (info), NULL)` admits GI_INFO_TYPE_STRUCT only, so for a
-    GI_INFO_TYPE_BOXED info the answer is NULL whatever the StructBlob stores. -/
+    `g_return_val_if_fail (GI_IS_STRUCT_INFO (info), NULL)`, where GI_IS_STRUCT_INFO admits
+    GI_INFO_TYPE_STRUCT and GI_INFO_TYPE_BOXED (gistructinfo.h, pinned by `Gen.isStructInfoKinds`);
+    then `blob->x ? g_typelib_get_string (...) : NULL`. -/
 def structFuncName (c : Ctx) (kind strOff : Nat) : String :=
-  if kind == K "GI_INFO_TYPE_STRUCT" then optStr c.t strOff else "(null)"
+  if Gen.isStructInfoKinds.any (fun l => enumVal "GIInfoType" l == kind) then optStr c.t strOff else "(null)"
 
 /-- gistructinfo.c (`kind`: GI_INFO_TYPE_STRUCT or GI_INFO_TYPE_BOXED, both are StructBlobs) -/
 def dumpStruct (c : Ctx) (path : String) (kind off : Nat) (out : Out) : Out :=
@@ -967,7 +968,6 @@ structure Hyps where
   fieldCallbacksCounted : Bool
   blobsAligned : Bool
   noDiscriminatedUnion : Bool
-  boxedFuncsUnset : Bool
   nBoxed : Nat
   deprecatedUnions : Nat
   nObjects : Nat
@@ -994,9 +994,6 @@ def checkHyps (t : Bytes) : Hyps :=
     fieldCallbacksCounted := objects.all (fun e => (objFlags e).count true == (objCounts c e.2).nFieldCallbacks)
     blobsAligned := es.all (fun e => e.2 % 4 == 0)
     noDiscriminatedUnion := unions.all (fun e => getF t e.2 (fld "UnionBlob" "discriminated") == 0)
-    -- girnode.c never gives a BLOB_TYPE_BOXED StructBlob a copy/free function (hypothesis of C09_struct_func_name)
-    boxedFuncsUnset := (es.filter (fun e => e.1 == K "GI_INFO_TYPE_BOXED")).all (fun e =>
-      getF t e.2 (fld "StructBlob" "copy_func") == 0 && getF t e.2 (fld "StructBlob" "free_func") == 0)
     nBoxed := (es.filter (fun e => e.1 == K "GI_INFO_TYPE_BOXED")).length
     deprecatedUnions := (unions.filter (fun e => getF t e.2 (fld "UnionBlob" "deprecated") != 0)).length
     nObjects := objects.length
